@@ -2,6 +2,7 @@ package engine
 
 import (
 	"fmt"
+	"go/ast"
 	"go/types"
 	"sort"
 	"strings"
@@ -322,12 +323,12 @@ func predIndex(b, p *ssa.BasicBlock) int {
 func (e *fnEnc) loopClauses(li *loopInfo) (invs, decs []*Clause) {
 	if c := e.contract; c != nil {
 		for _, cl := range c.Invs {
-			if cl.Loop == li.ordinal {
+			if e.clauseLoop(cl) == li.ordinal {
 				invs = append(invs, cl)
 			}
 		}
 		for _, cl := range c.Decs {
-			if cl.Loop == li.ordinal {
+			if e.clauseLoop(cl) == li.ordinal {
 				decs = append(decs, cl)
 			}
 		}
@@ -428,7 +429,7 @@ func (e *fnEnc) loadVia(addr ssa.Value, T types.Type, heap map[string]string) TV
 	saved := e.cur
 	e.cur = heap
 	defer func() { e.cur = saved }()
-	if lv, ok := e.lvs[addr]; ok {
+	if lv, ok := e.lvOf(addr); ok {
 		return TV{e.load(lv), e.S().SortOf(T), T}
 	}
 	return TV{e.loadPtr(e.term(addr), T), e.S().SortOf(T), T}
@@ -449,7 +450,7 @@ func (e *fnEnc) assumeInvariants(li *loopInfo) {
 	}
 	if c := e.contract; c != nil {
 		for _, cl := range c.Assumes {
-			if cl.Loop != li.ordinal {
+			if e.clauseLoop(cl) != li.ordinal {
 				continue
 			}
 			f, err := env.Bool(cl.Expr)
@@ -613,4 +614,55 @@ func (e *fnEnc) writesType(T types.Type) bool {
 		}
 	}
 	return false
+}
+
+// clauseLoop resolves the loop a clause is attached to: a plain ordinal, or a selector naming the
+// ranged-over expression ("range:EXPR#k") or the loop condition ("for:COND#k") as written in the source.
+func (e *fnEnc) clauseLoop(cl *Clause) int {
+	if cl.LoopSel == "" {
+		return cl.Loop
+	}
+	if e.loopSels == nil {
+		e.loopSels = map[string]int{}
+		syn, ok := e.fn.Syntax().(*ast.FuncDecl)
+		var body *ast.BlockStmt
+		if ok {
+			body = syn.Body
+		} else if lit, ok := e.fn.Syntax().(*ast.FuncLit); ok {
+			body = lit.Body
+		}
+		if body != nil {
+			var sels []string
+			ast.Inspect(body, func(n ast.Node) bool {
+				switch s := n.(type) {
+				case *ast.FuncLit:
+					return false
+				case *ast.RangeStmt:
+					sels = append(sels, "range:"+strings.ReplaceAll(types.ExprString(s.X), " ", ""))
+				case *ast.ForStmt:
+					c := ""
+					if s.Cond != nil {
+						c = strings.ReplaceAll(types.ExprString(s.Cond), " ", "")
+					}
+					sels = append(sels, "for:"+c)
+				}
+				return true
+			})
+			if len(sels) == len(e.loops) {
+				count := map[string]int{}
+				for ord, s := range sels {
+					e.loopSels[fmt.Sprintf("%s#%d", s, count[s])] = ord
+					count[s]++
+				}
+			}
+		}
+	}
+	key := cl.LoopSel
+	if !strings.Contains(key, "#") {
+		key += "#0"
+	}
+	if ord, ok := e.loopSels[key]; ok {
+		return ord
+	}
+	return -2
 }
